@@ -306,7 +306,10 @@ pub fn write_line_of_code_with_optional_path_and_line_number(
     config: &Config,
 ) -> std::io::Result<()> {
     let (mut draw_fn, _, decoration_ansi_term_style) = draw::get_draw_function(decoration_style);
-    let line = if config.color_only {
+    // In color_only mode a hunk header is shown as the unchanged input line. That does not apply
+    // to a line of code that comes with its own style sections (grep output): those sections
+    // describe `code_fragment`, not the input line.
+    let line = if config.color_only && style_sections.is_none() {
         line.to_string()
     } else if matches!(include_code_fragment, HunkHeaderIncludeCodeFragment::Yes)
         && !code_fragment.is_empty()
